@@ -1,4 +1,5 @@
 import HioModel.Sched.LemmasC05
+import HioModel.Sched.Runs
 /-!
 # C05 "Run termination and done flags are exact"
 
@@ -273,5 +274,40 @@ example : ((doistDo [] 1 0 none 5 [Spec.group 2 0 false [Spec.leaf 1 .ok ([] : L
        (2, .recur), (1, .recur), (1, .clean), (1, .exit), (1, .flag true), (2, .flag true),
        (2, .clean), (2, .exit), (2, .exitEnd), (2, .flag true), (0, .stopBeg), (0, .stopEnd)] := by decide
 end trace
+
+/-! ### several runs on one Doist object (`do` / `ado` called again; model `HioModel/Sched/Runs.lean`)
+
+"done is True only if every doer had already completed" must hold of EVERY run on a Doist, not only of the first:
+a later run inherits the Doist's tyme and (sticky) limit and nothing else — in particular not `done`. -/
+section runs
+variable {τ : Type} [Add τ] [LE τ] [DecidableRel (α := τ) (· ≤ ·)] [OfNat τ 0] [BEq τ]
+
+/-- the last of several runs is the run a Doist would do that was created with the carried tyme and limit -/
+theorem later_run_as_fresh (tock : τ) (fuel : Nat) (now : τ) (lim : Option τ) (pre : List (RunSpec τ)) (r : RunSpec τ) :
+    runSeq tock fuel now lim (pre ++ [r])
+      = runSeq tock fuel now lim pre
+        ++ [doistDo r.pool tock (r.start.getD (carry tock fuel now lim pre).1)
+              (effLimit (carry tock fuel now lim pre).2 r) fuel r.specs] := by
+  induction pre generalizing now lim with
+  | nil => simp [runSeq, carry, runOne]
+  | cons q qs ih => simp only [List.cons_append, runSeq, carry]; rw [ih]
+
+/-- two histories that leave the same tyme and limit behind are indistinguishable for the next run
+(its trace, done flags, `done`, tyme, raised: the whole `Final`) -/
+theorem run_depends_only_on_carried_tyme (tock : τ) (fuel : Nat) (now1 now2 : τ) (lim1 lim2 : Option τ)
+    (pre1 pre2 : List (RunSpec τ)) (r : RunSpec τ)
+    (h : carry tock fuel now1 lim1 pre1 = carry tock fuel now2 lim2 pre2) :
+    (runSeq tock fuel now1 lim1 (pre1 ++ [r])).getLast? = (runSeq tock fuel now2 lim2 (pre2 ++ [r])).getLast? := by
+  rw [later_run_as_fresh, later_run_as_fresh, h]
+  simp
+
+/-- non-vacuity / test on literals: a run that completes (done) followed by a run cut by its limit on the same
+Doist: the second run ends with done = false -/
+example :
+    ((runSeq (1 : Nat) 20 0 none
+        [⟨none, none, [], [.leaf 1 .ok [⟨[], .yieldT (some 0)⟩]]⟩,
+         ⟨none, some 2, [], [.leaf 2 .ok [⟨[], .yieldT (some 0)⟩, ⟨[], .yieldT (some 0)⟩, ⟨[], .yieldT (some 0)⟩, ⟨[], .yieldT (some 0)⟩]]⟩]).map
+      (fun f => (f.done, f.tyme))) = [(true, 2), (false, 4)] := by decide
+end runs
 
 end Hio.Sched
